@@ -135,9 +135,18 @@ def run(s):
             for trial in range(3 if tier == "quick" else 40):
                 tens = rnd.uniform(20, 400, size=(2, len(basis))) @ basis
                 df = pandas.DataFrame({fill_env.NAMES[k]: tens[:, k] for k in range(21) if numpy.any(numpy.abs(tens[:, k]) > 1e-6)})
+                # row labels are not data: a table that was sliced, filtered or indexed by volume before (any pandas index) fills like the freshly read one
+                if trial % 3 == 1:
+                    df.index = [7, 3]
+                elif trial % 3 == 2:
+                    df.index = ["v_low", "v_high"]
                 one = fill.fill_cij(df.copy(), system)
                 two = fill.fill_cij(one.copy(), system)
+                again = fill.fill_cij(df.copy(), system)
                 n += 1
+                if list(one.columns) != list(again.columns) or not numpy.array_equal(one.to_numpy(dtype=float), again.to_numpy(dtype=float), equal_nan=False) or list(one.index) != list(df.index):
+                    return core.refuted("runtime-contract", "%s: filling the same table (row labels %s) twice gives different results / other row labels" % (system, list(df.index)),
+                                        witness_id="repeat:" + system, replay={"reproduced": True, "table": df.to_dict("list"), "row_labels": [str(x) for x in df.index]})
                 if list(one.columns) != list(two.columns) or not numpy.allclose(one.to_numpy(dtype=float), two.to_numpy(dtype=float), rtol=1e-10, atol=1e-10):
                     return core.refuted("runtime-contract", "%s: filling an already filled table changes it" % system, witness_id="idempotent:" + system,
                                         replay={"reproduced": True, "table": df.to_dict("list")})
